@@ -31,7 +31,7 @@ pub struct Lookup {
 /// one id of the exhaustive sweep: both directions + structural consequences
 fn check_id(id: u64, zmax_children: u32) -> CaseResult {
     let Some((z, x, y)) = hilbert::id_to_zxy(id) else {
-        fail!("C07/harness", "reference rejects id {id}")
+        fail!("C07/INFRA/harness-self-check", "reference rejects id {id}")
     };
     let got = guarded("util::zxy", || pmtiles2::util::zxy(id))?;
     match got {
@@ -77,7 +77,7 @@ fn check_id(id: u64, zmax_children: u32) -> CaseResult {
 
 fn check_pt(p: &Pt) -> CaseResult {
     let Some(want) = hilbert::zxy_to_id(p.z, p.x, p.y) else {
-        fail!("C07/harness", "generator produced an out-of-grid point {:?}", p)
+        fail!("C07/INFRA/harness-self-check", "generator produced an out-of-grid point {:?}", p)
     };
     let got = guarded("util::tile_id", || pmtiles2::util::tile_id(p.z, p.x, p.y))?;
     ensure!(got == want, "C07/tile_id-differs", "tile_id({},{},{}) = {got}, specification says {want}", p.z, p.x, p.y);
